@@ -5,8 +5,9 @@ CONSTANTS
   Depth = 6
   GThreads = {1}
   GEx = {}
-  GMax = {150, 1000000000}
-  GOps = {"rm"}
+  GMax = {150}
+  GOps = {}
+  GPairs = 1
 SPECIFICATION GSpec
 CONSTRAINT EmitBeh
 CHECK_DEADLOCK FALSE
